@@ -58,7 +58,10 @@ def gen_knobs(rng):
     start = rng.choice([0, 1796, 1797, 1798, 1800, 17980, 17982, 107890, 107892, rng.randrange(0, 200000)])
   return {
     "styles": styles, "captions": rng.randint(1, 12), "switch": rng.choice([0.0, 0.2, 0.5]), "enm": rng.choice([0.0, 0.5, 1.0]),
-    "unclean": 0.0,  # scope guard: style changes are always preceded by EDM + ENM (see DESIGN 8.2)
+    # style changes to and from roll-up are always preceded by EDM + ENM (RUx erases the memories when it follows another
+    # style, and flipped roll-up rows lose their bottom alignment - neither is modelled by the reader); changes between
+    # pop-on and paint-on may happen with a caption on screen
+    "unclean": rng.choice([0.0, 0.0, 0.5, 1.0]),
     "df": df, "start": start,
     "chan": {"double": rng.random() < 0.7, "null": rng.choice([0.0, 0.0, 0.1, 0.3]), "ch2": rng.choice([0.0, 0.0, 0.1, 0.3]),
              "parity_off": rng.choice([0.0, 0.0, 0.5, 1.0]), "line_len": rng.choice([6, 12, 20, 40, 1000]), "split": rng.choice([0.0, 0.0, 0.5, 1.0])},
@@ -400,7 +403,7 @@ def run_one(rng, case, stats, rec, log, ctx=None):
     raise soft[0]
 
 
-def valid_script(ops, allow_unclean=False):
+def valid_script(ops, allow_unclean=True):
   """Does the script follow the protocol grammars the statement quantifies over (and the scope
   guards of DESIGN.md)? Used to keep minimisation inside the property's domain and to guard the
   generator itself."""
@@ -422,7 +425,7 @@ def valid_script(ops, allow_unclean=False):
       n = u[1]
       if n in ("RCL", "RDC", "RU2", "RU3", "RU4"):
         new = {"RCL": "pop", "RDC": "paint"}.get(n, "roll")
-        if mode is not None and new != mode and (dirty_disp or dirty_nond) and not allow_unclean:
+        if mode is not None and new != mode and (dirty_disp or dirty_nond) and ("roll" in (new, mode) or not allow_unclean):
           return False
         mode = new
         have_pos = False
